@@ -25,6 +25,7 @@ def run(ctx):
     ctx.run("C13.REWIND", "R-TABLE", zf.rewind)
     ctx.run("C13.WHENCE", "R-TABLE", zf.whence)
     ctx.run("C13.FLUSH", "R-ORDER", zf.flush)
+    ctx.run("C13.OWNERSHIP", "R-WHO", zf.ownership)
     ctx.run("C13.GUARDS", "R-ORDER/R-LOCK", zf.guards)
     ctx.run("C13.MODE-TYPESTATE", "R-WHO", zf.mode_typestate)
     ctx.run("C14.EOF-NOT-DATA", "R-ORDER", zf.eof_not_data)
